@@ -26,6 +26,14 @@ func absorbCov(c *core.Ctx, s *Sched) {
 // completed normally.
 func reportM1(c *core.Ctx, s *Sched, panicMsg string, cs map[string]any, deadlockIsViolation bool) bool {
 	cs["schedule"] = s.Trace
+	if prog, _ := cs["program"].(string); strings.Contains(prog, "consumers may starve") && s.Deadlock() != "" {
+		if strings.Contains(s.Deadlock(), "reset:") {
+			c.Violation("m1/removeall-never-returns", "RemoveAll is blocked for ever: "+s.Deadlock(), cs)
+		} else {
+			c.Cover("m1.legitimate-starvation-after-removeall")
+		}
+		return false
+	}
 	switch {
 	case s.Unrepresentable():
 		c.Cover("m1.abandoned(committed-goroutine-ready-on-a-replaced-channel)")
@@ -86,7 +94,7 @@ func RunC04M1(c *core.Ctx) {
 // and the terminal conservation check.
 func RunC05M1(c *core.Ctx) {
 	p := GenQProgram(c.Rng, true)
-	if !p.Closer {
+	if !p.Closer && !p.StarvationOK {
 		p.Closer = true
 		for i := range p.Consumers {
 			p.Consumers[i] = -1
@@ -112,7 +120,7 @@ func RunC05M1(c *core.Ctx) {
 			delivered++
 		}
 	}
-	if len(res.Final) != 0 || (!p.RemoveAll && delivered != added) {
+	if !p.StarvationOK && (len(res.Final) != 0 || (!p.RemoveAll && delivered != added)) {
 		c.Violation("m1/values-not-consumed", fmt.Sprintf("%d values added, %d consumed, %v left in the queue after the program terminated", added, delivered, res.Final), cs)
 		return
 	}
